@@ -47,6 +47,11 @@ func c14Requests() []c14Req {
 	c5.PlanModifiers = map[string][]string{"Alpha.Meta": {dsl.TFX + ".PM(1)"}, "Tiny.On": {dsl.TFX + ".PM(2)"}, "Gamma.Deep.Inner.Tiny.On": {dsl.TFX + ".PM(3)"}}
 	c5.Injected = map[string][]dsl.Injected{"Alpha": {{Name: "id", Type: "github.com/hashicorp/terraform-plugin-framework/types.StringType", Computed: true}}, "Alpha.Meta": {{Name: "meta_id", Type: "github.com/hashicorp/terraform-plugin-framework/types.StringType", Computed: true}}, "Beta.Meta": {{Name: "beta_meta_id", Type: "github.com/hashicorp/terraform-plugin-framework/types.StringType", Optional: true}}}
 	c5.UseStateForUnknown = true
+	// import_path_overrides whose keys are path prefixes of one another, each mapped elsewhere, and names
+	// qualified with the nested ones
+	c5.ImportPathOverrides = map[string]string{"vx": "example.com/elsewhere/vx", "vx/tfx": "verif/tfx", "vx/tfx/deep": "example.com/deep/one", "vx/other": "example.com/other"}
+	c5.Validators["Delta.Only"] = []string{"vx/tfx.V(40)", "vx/tfx/deep.Check()", "vx.Top()"}
+	c5.PlanModifiers["Gamma.KS"] = []string{"vx/tfx.PM(41)", "vx/other.Mod()"}
 	c5.Computed = append(c5.Computed, "Shared.Label", "Beta.Count")
 	c5.PlanModifiers["Shared.Label"] = []string{dsl.TFX + ".PM(7)", usu, dsl.TFX + ".PM(8)"}
 	c5.PlanModifiers["Beta.Count"] = []string{usu, usu, dsl.TFX + ".PM(9)", dsl.TFX + ".PM(10)", dsl.TFX + ".PM(9)"}
